@@ -116,6 +116,15 @@ Proof.
   rewrite err_rich_step by (auto; apply rich_iter_length; auto). rewrite IH. reflexivity.
 Qed.
 
+(* I - B A is linear when B is *)
+Lemma err_step_lin : linear_on n B -> linear_on n err_step.
+Proof.
+  intros B_lin a x y Lx Ly. unfold err_step.
+  assert (Lxy : length (vmap2 (fun xi yi => xi + a * yi) x y) = n) by (rewrite vmap2_length; lia).
+  rewrite (A_lin a x y Lx Ly), (B_lin a (A x) (A y) (A_len x Lx) (A_len y Ly)).
+  unfold vsub. change (@zipw S) with (@vmap2 S). vring.
+Qed.
+
 (* ---------- the rate ---------- *)
 Section Contraction.
 Variable d2 : S.                      (* delta^2 *)
